@@ -79,6 +79,28 @@ def run_property(prop, tier, seed, replay=None):
     if ev["errors"]:
         raise RuntimeError("case evaluation failed in Coq:\n" + "\n".join(ev["errors"][:2]))
 
+    # ---- extra validation streams (environment models): a disagreement breaks the tie
+    extra_cov = {}
+    for ex in getattr(prop, "extra_streams", []):
+        xwd = os.path.join(workdir, "extra_" + ex.id)
+        xcases = ex.gen(rng, tier)
+        for i, c in enumerate(xcases):
+            c["id"] = i
+        xobs = ex.run_impl(xcases, xwd)
+        xterms = [(c["id"], ex.to_coq(c, xobs[c["id"]])) for c in xcases]
+        xev = coq_eval(ex.id, ex.hold_mod, ex.agree_mod, xterms, xwd, per_shard=ex.per_shard,
+                       extra_imports=getattr(ex, "extra_imports", ""), scope=getattr(ex, "scope", "N_scope"))
+        if xev["errors"]:
+            raise RuntimeError("extra stream evaluation failed in Coq:\n" + "\n".join(xev["errors"][:2]))
+        xbad = sorted(set(xev["bad_hold"]) | set(xev["bad_agree"]))
+        extra_cov[ex.id] = {"evaluations": len(xcases), "disagreements": len(xbad), "rule": ex.rule,
+                            "distribution": ex.distribution(xcases, xobs) if hasattr(ex, "distribution") else {}}
+        if xbad:
+            xb = {c["id"]: c for c in xcases}
+            rp = write_replay(ex.id, {"property": ex.id, "kind": "counterexample", "seed": seed,
+                                      "input": xb[xbad[0]], "observed": xobs[xbad[0]], "judgement": "environment-model"})
+            broken.append(f"environment model stream {ex.id}: model and real system differ on {len(xbad)} cases (first: {os.path.relpath(rp, VERIF)})")
+
     by_id = {c["id"]: c for c in cases}
     violations = []      # (case, obs, key)
     known_hits = {}
@@ -153,6 +175,7 @@ def run_property(prop, tier, seed, replay=None):
         "known_findings_hit": [k for k in known_hits],
         "translator_missing": gj.get("missing", []),
         "exhaustive": bool(getattr(prop, "exhaustive", False)),
+        "environment_model_streams": extra_cov,
     }
     write_evidence(pid, tier, seed, coverage, prop.assumptions, T.s(), len(violations) + (1 if broken and not violations else 0))
     for line in out_lines:
